@@ -35,6 +35,21 @@ def gen_matrix(rng, n, m, miss_frac, special):
                 f = 0.03 / max(sd, 1e-12)
                 for i in range(n):
                     X[i][j] = mu + (X[i][j] - mu) * f
+    if special == "small_sum":       # a column (spread >= 0.02) whose sum is a few 1e-7: inside the library's zero-sum window
+        j = rng.randrange(m)
+        col = [X[i][j] for i in range(n)]
+        shift = (rng.choice((4e-7, -7e-7, 9e-7)) - math.fsum(col)) / n
+        for i in range(n):
+            X[i][j] += shift
+    if special == "near_unit":       # every column with a spread within 1e-3 of 1 (but not 1)
+        for j in range(m):
+            col = [X[i][j] for i in range(n)]
+            mu = sum(col) / n
+            sd = math.sqrt(sum((c - mu) ** 2 for c in col) / (n - 1)) if n > 1 else 0.0
+            if sd > 0:
+                f = (1.0 + rng.choice((-6e-4, 4e-4, 7e-4))) / sd
+                for i in range(n):
+                    X[i][j] = mu + (X[i][j] - mu) * f
     if special == "band":            # level scaling with a column mean between the two guards
         j = rng.randrange(m)
         col = [X[i][j] for i in range(n)]
@@ -63,8 +78,9 @@ def oracle_stats(col, ty):
     obs = [x for x in col if not is_missing(x)]
     n = len(obs)
     s = math.fsum(obs)
-    avg = 0.0 if -1e-6 < s < 1e-6 else s / n
+    avg = 0.0 if -1e-6 < s < 1e-6 else s / n          # what MatrixColAverage stores (sum inside (-1e-6, 1e-6) => 0)
     mu = s / n
+    oracle_stats.true_mean = mu
     var = math.fsum((x - mu) ** 2 for x in obs) / (n - 1) if n > 1 else float("nan")
     if ty == 1:
         sc = math.sqrt(var)
@@ -97,6 +113,10 @@ def run(ck, rng, tier):
         ty = rng.choice((-1, 0, 1, 2, 3, 4, 5))
         n, m = rng.randint(2, 60 if thorough else 24), rng.randint(1, 20 if thorough else 8)
         special = rng.choice(("none", "none", "none", "band", "miss_first"))
+        if c < 3:
+            special = "small_sum"
+        elif c < 8:
+            special, ty = "near_unit", (1, 1, 2, 3, 1)[c - 3]
         miss = rng.choice((0.0, 0.0, 0.1, 0.2)) if special != "band" else 0.0
         if special == "miss_first":
             miss = max(miss, 0.1)
@@ -149,6 +169,8 @@ def run(ck, rng, tier):
                 col = [X[r][j] for r in range(n)]
                 avg, sc = oracle_stats(col, ty)
                 what = None
+                if avg == 0.0 and abs(oracle_stats.true_mean) > 1e-9 and o["avg"][j] == 0.0:
+                    ck.fail("MatrixColAverage", "sum_inside_zero_window", "stored column average is 0 although the observed cells average %.3g (their sum %.3g lies inside the (-1e-6, 1e-6) window the routine treats as zero)" % (oracle_stats.true_mean, oracle_stats.true_mean * len([x for x in col if not is_missing(x)])), {"option": ty, "column": j, "values": col})
                 if not close(o["avg"][j], avg, 1e-9, 1e-9):
                     what = ("stored_average", "stored column average %r is not the average of the observed cells %r" % (o["avg"][j], avg))
                 elif not close(o["scale"][j], sc, 1e-9, 1e-9) and not (abs(sc) < 1e-6 and abs(o["scale"][j]) < 1e-3 * 0.5):
